@@ -231,6 +231,24 @@ def check(case, ctx):
             if a.stdout != b.stdout:
                 raise Violation('cli:%s' % flag, 'src=%r fmt=%s\n%s f: %r\nplain g: %r' % (src, fmt, flag, a.stdout[-800:], b.stdout[-800:]))
         ctx.cls('cli_leg_checked')
+        # the same through a transcluded file, stdout and batch route: the text-level pass has to see the included text too
+        if case['cli'] == 0 and '{{' not in src and fmt in ('html', 'latex'):
+            inc, mainf = os.path.join(d, 'inc.txt'), os.path.join(d, 'main.txt')
+            open(inc, 'w').write(src)
+            open(mainf, 'w').write('{{inc.txt}}\n')
+            for acc, flag in ((True, '-a'), (False, '-r')):
+                open(g, 'w').write(model(its, acc) + '\n')
+                want = subprocess.run([cli, '-t', fmt, g], stdout=subprocess.PIPE, stderr=subprocess.PIPE, env=env).stdout
+                got1 = subprocess.run([cli, flag, '-t', fmt, mainf], stdout=subprocess.PIPE, stderr=subprocess.PIPE, env=env).stdout
+                subprocess.run([cli, flag, '-b', '-t', fmt, mainf], stdout=subprocess.PIPE, stderr=subprocess.PIPE, env=env)
+                outb = os.path.join(d, 'main' + ('.html' if fmt == 'html' else '.tex'))
+                got2 = open(outb, 'rb').read() if os.path.exists(outb) else None
+                for name, got in (('stdout', got1), ('-b', got2)):
+                    if got is None or ws_norm(got) != ws_norm(want):
+                        raise Violation('cli-transcluded:%s:%s' % (flag, name), 'src=%r fmt=%s\n%s of a file that transcludes the text: %r\nplain rendering of the edited text: %r' % (src, fmt, name, (got or b'')[-500:], want[-500:]))
+                if os.path.exists(outb):
+                    os.unlink(outb)
+            ctx.cls('cli_transcluded_leg_checked')
 
 
 def prebuild():
